@@ -824,11 +824,15 @@ func (e *Env) inlineResult(call *ssa.Call, i int) (ssa.Value, *Env) {
 	var first ssa.Value
 	t := ""
 	n := 0
+	_, sliceRes := res.At(i).Type().Underlying().(*types.Slice)
 	for _, r := range returnsOf(sc) {
 		if !sel(r) || i >= len(r.Results) {
 			continue
 		}
 		rv := liveRetval(r, i)
+		if sliceRes && isNilConst(rv) {
+			continue // "nothing": a nil slice has no elements to name; its length keeps its own atom (lenOf does not inline)
+		}
 		s := sub.Term(rv)
 		if n > 0 && s != t {
 			return nil, nil
@@ -1058,6 +1062,18 @@ func (e *Env) sliceBase(v ssa.Value, depth int) (*Env, ssa.Value, LE, bool) {
 		if x.Op == token.MUL {
 			if f := forwarded(x); f != nil {
 				return e.sliceBase(f, depth+1)
+			}
+		}
+	case *ssa.Call:
+		if x.Call.Signature().Results().Len() == 1 {
+			if rv, sub := e.inlineResult(x, 0); rv != nil {
+				return sub.sliceBase(rv, depth+1)
+			}
+		}
+	case *ssa.Extract:
+		if call, ok := x.Tuple.(*ssa.Call); ok {
+			if rv, sub := e.inlineResult(call, x.Index); rv != nil {
+				return sub.sliceBase(rv, depth+1)
 			}
 		}
 	case *ssa.Slice:
@@ -2286,25 +2302,46 @@ func (e *Env) returnAlternatives(sel func(*ssa.Return) bool, why string, assume 
 		if len(assume) > 0 && e.unreachableUnder(r.Block(), assume) {
 			continue
 		}
-		fs := append([]Fact{}, e.factsAt(r.Block(), r, assume)...)
-		fs = append(fs, e.tailCallFacts(r)...)
-		var keep []Fact
-		for _, f := range fs {
-			if f.Lin && f.LE.isConst() {
-				continue
+		var sets [][]Fact
+		if blk := r.Block(); len(blk.Preds) > 1 {
+			// a return shared by several guards (`if a || b { return nil }`): one alternative per way of arriving
+			ee := errorEdges(r)
+			for _, pb := range blk.Preds {
+				if ee[edge{pb, blk}] || len(pb.Instrs) == 0 {
+					continue
+				}
+				if len(assume) > 0 && e.unreachableUnder(pb, assume) {
+					continue
+				}
+				fs := append([]Fact{}, e.factsAt(pb, pb.Instrs[len(pb.Instrs)-1], assume)...)
+				fs = append(fs, e.EdgeFacts()[edge{pb, blk}]...)
+				fs = append(fs, e.tailCallFacts(r)...)
+				sets = append(sets, fs)
 			}
-			f.defs = nil
-			if !strings.HasPrefix(f.Why, why) {
-				f.Why = why + " <= " + f.Why
-			}
-			keep = append(keep, f)
-			if len(keep) >= 60 {
-				break
-			}
+		} else {
+			fs := append([]Fact{}, e.factsAt(r.Block(), r, assume)...)
+			fs = append(fs, e.tailCallFacts(r)...)
+			sets = append(sets, fs)
 		}
-		alts = append(alts, keep)
+		for _, fs := range sets {
+			var keep []Fact
+			for _, f := range fs {
+				if f.Lin && f.LE.isConst() {
+					continue
+				}
+				f.defs = nil
+				if !strings.HasPrefix(f.Why, why) {
+					f.Why = why + " <= " + f.Why
+				}
+				keep = append(keep, f)
+				if len(keep) >= 60 {
+					break
+				}
+			}
+			alts = append(alts, keep)
+		}
 	}
-	if len(alts) < 2 || len(alts) > 8 {
+	if len(alts) < 2 || len(alts) > 12 {
 		return nil
 	}
 	return alts
